@@ -21,6 +21,18 @@ DEFAULT_SEED = 20260926
 KNOWN_FINDINGS = os.path.join(VERIF, "known_findings.json")
 
 
+def out_dir():
+    """Where evidence and replay files go.  /verif for runs against /repo itself; a scratch directory for
+    sensitivity runs against a patched copy (VERIF_REPO), so those never overwrite committed evidence."""
+    if os.environ.get("VERIF_OUT"):
+        return os.environ["VERIF_OUT"]
+    if os.path.realpath(seams.REPO) == "/repo":
+        return VERIF
+    d = os.path.join("/tmp", "verif-out-" + os.path.basename(os.path.realpath(seams.REPO)))
+    os.makedirs(d, exist_ok=True)
+    return d
+
+
 # ----------------------------------------------------------------------------- base check
 class Check:
     """One property.  Subclasses provide gen() and the oracle hooks."""
@@ -399,8 +411,8 @@ def match_known(known, prop, backend, tag, op, message=""):
 
 # ----------------------------------------------------------------------------- replay files
 def write_replay(check, run, res, seed, idx, minimised, extra=None):
-    os.makedirs(os.path.join(VERIF, "replays"), exist_ok=True)
-    path = os.path.join(VERIF, "replays", "%s-%s-%d.json" % (check.prop, run.get("backend", "x"), idx))
+    os.makedirs(os.path.join(out_dir(), "replays"), exist_ok=True)
+    path = os.path.join(out_dir(), "replays", "%s-%s-%d.json" % (check.prop, run.get("backend", "x"), idx))
     doc = {
         "format": 1,
         "property": check.prop,
@@ -700,7 +712,7 @@ def aggregate(check, results, tier, seed, t0, reported, stopped_early, second, n
 
 
 def write_evidence(check, agg):
-    d = os.path.join(VERIF, "evidence")
+    d = os.path.join(out_dir(), "evidence")
     os.makedirs(d, exist_ok=True)
     with open(os.path.join(d, "%s.json" % check.prop), "w") as f:
         json.dump(agg, f, indent=1, default=repr, sort_keys=True)
